@@ -7,48 +7,26 @@ Open Scope Z_scope.
 Lemma jwt_iff_valid auth mal alg c now keys :
   jwt_accept auth mal alg c now keys = true <->
   (exists tok, get_token auth = Some tok) /\ mal = false /\ claims_ok c now = true /\
-  exists k, In k keys /\ alg_compat alg (k_kty k) = true /\ k_sig_ok k = true.
+  exists k, In k keys /\ (k_alg k = 0 \/ k_alg k = alg) /\ alg_compat alg (k_kty k) = true /\ k_sig_ok k = true.
 Proof.
-  unfold jwt_accept, validate_token. destruct (get_token auth) as [tok|].
+  unfold jwt_accept, validate_token, key_alg_ok. destruct (get_token auth) as [tok|].
   - rewrite andb_true_iff, negb_true_iff, existsb_exists. split.
-    + intros [Hm [k [Hk H]]]. apply andb_true_iff in H. destruct H as [H H3]. apply andb_true_iff in H. destruct H as [H1 H2].
+    + intros [Hm [k [Hk H]]]. rewrite !andb_true_iff, orb_true_iff, !Z.eqb_eq in H. destruct H as [[[Ha H1] H2] H3].
       split; [exists tok; reflexivity|]. split; [exact Hm|]. split; [exact H3|]. exists k. auto.
-    + intros [_ [Hm [Hc [k [Hk [H1 H2]]]]]]. split; [exact Hm|]. exists k. split; [exact Hk|].
-      rewrite H1, H2, Hc. reflexivity.
+    + intros [_ [Hm [Hc [k [Hk [Ha [H1 H2]]]]]]]. split; [exact Hm|]. exists k. split; [exact Hk|].
+      rewrite !andb_true_iff, orb_true_iff, !Z.eqb_eq. auto.
   - split; [discriminate|]. intros [[tok H] _]. discriminate.
 Qed.
 
-(* the statement's stronger reading (the key's declared algorithm must be the token's) fails: *)
-Lemma jwt_alg_refuted :
-  exists auth alg c now keys,
-    jwt_accept auth false alg c now keys = true /\ jwt_valid auth false alg c now keys = false.
-Proof.
-  exists (BEARER ++ [32; 120]), 1, {| c_exp := None; c_iat := None; c_nbf := None |}, 0,
-         [{| k_kty := 0; k_alg := 3; k_sig_ok := true |}].
-  split; vm_compute; reflexivity.
-Qed.
-(* ... and holds whenever no configured key declares a different algorithm than the token's *)
-Lemma jwt_alg_partial auth mal alg c now keys :
-  (forall k, In k keys -> k_alg k = 0 \/ k_alg k = alg) ->
+(* the model accepts exactly what the statement calls valid (jwt_valid of run/RunC51.v) *)
+Lemma jwt_accept_is_valid auth mal alg c now keys :
   jwt_valid auth mal alg c now keys = jwt_accept auth mal alg c now keys.
 Proof.
-  intros H. unfold jwt_valid, jwt_accept, validate_token. destruct (get_token auth); [|reflexivity].
+  unfold jwt_valid, jwt_accept, validate_token, key_alg_ok. destruct (get_token auth); [|reflexivity].
   destruct mal; [reflexivity|]. cbn [negb andb].
   induction keys as [|k r IH]; cbn [existsb]; [apply andb_false_r|].
-  assert (Hk : ((k_alg k =? 0) || (k_alg k =? alg)) = true).
-  { destruct (H k (or_introl eq_refl)) as [E|E]; rewrite E; [reflexivity|rewrite Z.eqb_refl; apply orb_true_r]. }
-  rewrite Hk, andb_true_r.
-  rewrite <- IH by (intros k' Hk'; apply H; right; exact Hk').
-  destruct (alg_compat alg (k_kty k) && k_sig_ok k); destruct (claims_ok c now); cbn [andb orb]; reflexivity.
-Qed.
-(* every request the statement calls valid is accepted (no false rejection), for all key sets *)
-Lemma jwt_valid_accepted auth mal alg c now keys :
-  jwt_valid auth mal alg c now keys = true -> jwt_accept auth mal alg c now keys = true.
-Proof.
-  unfold jwt_valid, jwt_accept, validate_token. destruct (get_token auth); [|discriminate].
-  intros H. apply andb_true_iff in H. destruct H as [H H3]. apply andb_true_iff in H. destruct H as [H1 H2].
-  rewrite H1. cbn [andb]. apply existsb_exists. apply existsb_exists in H3. destruct H3 as [k [Hk Hx]].
-  exists k. split; [exact Hk|]. apply andb_true_iff in Hx. destruct Hx as [Hx _]. rewrite Hx, H2. reflexivity.
+  rewrite <- IH. destruct ((k_alg k =? 0) || (k_alg k =? alg)); destruct (alg_compat alg (k_kty k));
+    destruct (k_sig_ok k); destruct (claims_ok c now); cbn [andb orb]; reflexivity.
 Qed.
 
 Lemma securelink_iff he expires checksum digest now :
@@ -107,3 +85,71 @@ Lemma C51_example_lemma :
   secure_link false [] (firstn 21 (b64url (repeat 7 16))) (repeat 7 16) 0 = 4 /\
   secure_link false [] (b64url (repeat 7 16)) (repeat 7 16) 0 = 0.
 Proof. vm_compute. auto. Qed.
+
+(* ---------- the executable property predicate holds of the model, per operation ---------- *)
+Lemma is_verdict_refl x : is_verdict (verdict x) x = true.
+Proof. unfold is_verdict. apply val_eqb_refl. Qed.
+Lemma b_vbool x : b (match vbool x with VZ z => z | _ => 0 end) = x.
+Proof. destruct x; reflexivity. Qed.
+
+Lemma prop_of_model_jwt auth mal alg cl now ks extra c keys :
+  dec_claims cl = Some c -> dec_keys ks = Some keys ->
+  let i := VL [VZ 2; VB auth; VZ mal; VZ alg; cl; VZ now; ks; extra] in prop_C51 i (run_C51 i) = true.
+Proof.
+  intros Hc Hk. cbn [prop_C51 run_C51]. rewrite Hc, Hk. rewrite jwt_accept_is_valid. apply is_verdict_refl.
+Qed.
+
+Lemma secure_link_range he expires checksum digest now :
+  0 <= secure_link he expires checksum digest now <= 5.
+Proof.
+  unfold secure_link. destruct he.
+  - destruct expires as [|x xs]; [cbn; lia|]. destruct (parse_int (x :: xs)) as [e|]; [|cbn; lia].
+    destruct (e <? now); cbn [negb Z.eqb]; [lia|].
+    destruct checksum; [lia|]. destruct (bytes_eqb (b64url digest) (z :: checksum)); lia.
+  - cbn [negb Z.eqb]. destruct checksum; [lia|]. destruct (bytes_eqb (b64url digest) (z :: checksum)); lia.
+Qed.
+Lemma prop_of_model_link he expires checksum digest now e1 e2 e3 :
+  let i := VL [VZ 3; VZ he; VB expires; VB checksum; VB digest; VZ now; e1; e2; e3] in prop_C51 i (run_C51 i) = true.
+Proof.
+  cbn [prop_C51 run_C51].
+  pose proof (secure_link_range (b he) expires checksum digest now) as Hr.
+  pose proof (securelink_iff (b he) expires checksum digest now) as Hi.
+  destruct (secure_link (b he) expires checksum digest now =? 0) eqn:E.
+  - apply Z.eqb_eq in E. rewrite (proj1 Hi E). cbn [Bool.eqb andb]. rewrite E. reflexivity.
+  - destruct (link_valid (b he) expires checksum digest now) eqn:EL.
+    + apply Z.eqb_neq in E. exfalso. apply E. apply Hi. reflexivity.
+    + cbn [Bool.eqb andb]. apply andb_true_iff. split; apply Z.leb_le; lia.
+Qed.
+
+Lemma uniq_lookup users : uniq_users users = true -> forall u,
+  existsb (fun e => bytes_eqb (fst e) u && snd e) users = match lookup_user users u with Some ok => ok | None => false end.
+Proof.
+  induction users as [|[n ok] r IH]; intros Hu u; [reflexivity|].
+  cbn [uniq_users] in Hu. apply andb_true_iff in Hu. destruct Hu as [Hn Hr].
+  cbn [existsb lookup_user fst snd]. destruct (bytes_eqb n u) eqn:E.
+  - apply bytes_eqb_eq in E. subst u. cbn [andb]. destruct ok; [reflexivity|]. cbn [orb].
+    rewrite IH by exact Hr. apply negb_true_iff in Hn.
+    assert (Hnone : lookup_user r n = None).
+    { clear -Hn. induction r as [|[m o] r IH]; [reflexivity|]. cbn [existsb fst] in Hn. apply orb_false_iff in Hn. destruct Hn as [H1 H2].
+      cbn [lookup_user]. rewrite H1. apply IH. exact H2. }
+    rewrite Hnone. reflexivity.
+  - cbn [andb orb]. apply IH. exact Hr.
+Qed.
+Lemma prop_of_model_basic auth dok dec us users :
+  dec_users us = Some users ->
+  let i := VL [VZ 1; VB auth; VZ dok; VB dec; us] in prop_C51 i (run_C51 i) = true.
+Proof.
+  intros Hu. cbn [prop_C51 run_C51]. rewrite Hu. destruct (uniq_users users) eqn:EU; [|reflexivity]. cbn [negb orb].
+  assert (H : basic_valid auth (if b dok then Some dec else None) users = basic_accept auth (if b dok then Some dec else None) users).
+  { unfold basic_valid, basic_accept. destruct (basic_user auth (if b dok then Some dec else None)); [|reflexivity].
+    apply uniq_lookup. exact EU. }
+  rewrite H. apply is_verdict_refl.
+Qed.
+Lemma prop_of_model_block inT hg g hp p e1 e2 g' p' :
+  dec_rules hg g = Some g' -> dec_rules hp p = Some p' ->
+  let i := VL [VZ 4; VZ inT; VZ hg; g; VZ hp; p; e1; e2] in prop_C51 i (run_C51 i) = true.
+Proof.
+  intros Hg Hp. cbn [prop_C51 run_C51]. rewrite Hg, Hp.
+  destruct (block_refuses g' p') as [_ H]. rewrite <- H. unfold global_block.
+  destruct (b inT); destruct (product_block g' p'); reflexivity.
+Qed.
